@@ -114,6 +114,27 @@ var ruleAddendaRound7 = map[string]string{
 	"C20": "three handlers that end in the login form",
 }
 
+// ruleAddendaRound8: extensions of the eighth round.
+var ruleAddendaRound8 = map[string]string{
+	"C01": "signatures by the attacker naming an unimplemented method under the trusted certificate (Response and Assertion, 3 method values); an expired genuinely signed assertion next to an unsigned twin of the same ID (both orders)",
+	"C02": "a Subject without any SubjectConfirmation in the option-axes product",
+	"C03": "every mixed sequence of AudienceRestrictions is also presented in reverse order: the verdicts must agree",
+	"C04": "tracked lifetime under an application RelayStateFunc; group middleware-every-pending-login-completes (2-3 pending logins answered in every order)",
+	"C06": "requests stating a ProtocolBinding next to the URL of the second registered endpoint / of an unregistered one; sessions about to end and without an end",
+	"C07": "name identifiers of five formats spelt with capitals, format compared after the round trip",
+	"C08": "surplus octets after the intact ciphertext; 11 kinds of foreign characters inside otherwise intact base64 (data and key cipher values)",
+	"C09": "15 text-level base64 variants on the logout validators (form, redirect) and on both IdP request decoders",
+	"C10": "xmlenc11 OAEP constructors with the DigestMethod field reassigned",
+	"C11": "GCM cipher values shortened by 1..all octets from the end and extended by 1..16",
+	"C13": "the ServiceProvider samlsp builds for SignRequest with each of 7 key types; one AuthnRequest object rendered for both bindings in 5 orders",
+	"C14": "endpoints with an empty, absent, blank-prefixed or upper-cased Binding",
+	"C15": "instants with 10-40 fraction digits; entity IDs of 1..1024 characters",
+	"C16": "nameless attributes (first / after a named one); values containing list separators and gates on their pieces",
+	"C18": "an issuer whose ID extends the configured one; comments and CDATA boundaries inside the Issuer text of a genuinely signed response",
+	"C19": "group session-lifetime-histories (login, then <= 5 of {SSO, shortcut, clock step}, clock in 40-minute steps)",
+	"C20": "server start over the populated store under a 30 s deadline",
+}
+
 // Register adds a check.
 func Register(c *Check) {
 	if a := ruleAddenda[c.ID]; a != "" {
@@ -127,6 +148,9 @@ func Register(c *Check) {
 	}
 	if a := ruleAddendaRound7[c.ID]; a != "" {
 		c.Rule += " Seventh round: " + a
+	}
+	if a := ruleAddendaRound8[c.ID]; a != "" {
+		c.Rule += " Eighth round: " + a
 	}
 	registry[c.ID] = c
 }
